@@ -20,7 +20,7 @@ ASSUMPTIONS = [
 
 
 def plan(tier, seed):
-    sp = progwork.shards(tier, 1500, 20000, exhaustive=(tier == 'thorough'))
+    sp = progwork.shards(tier, 1500, 50000, exhaustive=(tier == 'thorough'))
     from hv import realwork
     return sp + realwork.shards('C05', tier)
 
